@@ -554,6 +554,7 @@ class Extract:
         self.before = []
         self.after = []
         self.closures = {}
+        self.closure_expect = {}
         self.lift = None
         self.lift_async = None
         self.lifted_contract = []
@@ -659,6 +660,8 @@ def parse_template(path):
                 assert m_, d
                 cur.after.append(((m_.group(2).strip(), int(m_.group(1) or 1)), []))
                 target = cur.after[-1][1]
+            elif key.startswith('closure-expect '):
+                cur.closure_expect[int(key[len('closure-expect '):])] = norm(val)
             elif key.startswith('closure '):
                 kidx = int(key[len('closure '):])
                 cur.closures[kidx] = (val, [])
@@ -842,20 +845,49 @@ def render_extract(ex, vac=False, strip_proof=False):
     toks = tokenize(body)
     if ex.closures:
         cl = find_closures(toks)
+        headers = [norm(join(toks[b0:b1 + 1])) for (b0, b1) in cl]
+        # which closure(s) does each directive annotate? By ordinal, unless the directive records the header it
+        # expects (closure-expect): then the closure is re-aligned when a change inserted or removed closures.
+        assign = {}     # closure index (0-based) -> (hdr, lines, kidx)
+        groups = {}
         for kidx, (hdr, lines) in ex.closures.items():
-            if kidx < 1 or kidx > len(cl):
-                degraded.append('closure %d not found (%d closures)' % (kidx, len(cl)))
+            exp = ex.closure_expect.get(kidx)
+            groups.setdefault(exp, []).append(kidx)
+        for exp, ks in groups.items():
+            if exp is None:
+                for kidx in ks:
+                    if kidx < 1 or kidx > len(cl):
+                        degraded.append('closure %d not found (%d closures)' % (kidx, len(cl)))
+                    else:
+                        assign[kidx - 1] = ex.closures[kidx] + (kidx,)
                 continue
-            b0, b1 = cl[kidx - 1]
+            cands = [i for i, h in enumerate(headers) if h == exp]
+            same = len(set((ex.closures[k][0], tuple(ex.closures[k][1])) for k in ks)) == 1
+            if same:
+                # every closure with this header carries the same annotation: annotate all of them
+                if not cands:
+                    degraded.append('no closure with header %s found' % exp)
+                for i in cands:
+                    assign[i] = ex.closures[ks[0]] + (ks[0],)
+            else:
+                used = set()
+                for kidx in sorted(ks):
+                    free = [i for i in cands if i not in used]
+                    if not free:
+                        degraded.append('closure %d (%s) not found' % (kidx, exp))
+                        continue
+                    best = min(free, key=lambda i: abs(i - (kidx - 1)))
+                    used.add(best)
+                    assign[best] = ex.closures[kidx] + (kidx,)
+        for ci, (hdr, lines, kidx) in sorted(assign.items()):
+            b0, b1 = cl[ci]
             s_, e_ = closure_body_span(toks, b1)
             contract = '\n'.join(lines)
-            # header replacement and (if needed) block wrapping are two separate edits so that splices inside the
-            # closure body stay possible
             edits.append((toks[b0][2], toks[b1][3], '%s\n%s\n' % (hdr, contract)))
             if toks[s_][1] != '{':
                 edits.append((toks[s_][2], toks[s_][2], ' { '))
                 edits.append((toks[e_][3], toks[e_][3], ' }'))
-            log.append({'rule': 'R7', 'closure': kidx, 'header': join(toks[b0:b1 + 1]), 'annotated': hdr})
+            log.append({'rule': 'R7', 'closure': ci + 1, 'directive': kidx, 'header': join(toks[b0:b1 + 1]), 'annotated': hdr})
     if ex.loops or ex.loop_iter:
         lp = find_loops(toks)
         for kidx, lines in ex.loops.items():
